@@ -366,10 +366,20 @@ func genHistory(rng *rand.Rand, idx int) history {
 			cs.InRows = rng.IntN(10)
 			cs.InLen = int(sizeKnob(rng, rng.IntN(2) == 0)) % 700
 			p.N = int64(1 + rng.IntN(3)) // blow factor
-			cs.InPtr = cs.Advertise && rng.IntN(3) != 0
 		}
 		if cs.Advertise || attached {
 			cs.ReqPtr = rng.IntN(2) == 0
+			if !cs.Advertise && cs.Method == "exchange" {
+				// segment advertised on an earlier request only: the init request
+				// references it by offset, which engages shm for the inputs too
+				cs.ReqPtr = rng.IntN(4) != 0
+			}
+		}
+		if cs.Method == "exchange" {
+			// inputs travel as pointers only when this init request engaged shm
+			// (advertised, or was itself a pointer request — decided again at run
+			// time, because a request that does not fit goes inline)
+			cs.InPtr = (cs.Advertise || cs.ReqPtr) && rng.IntN(3) != 0
 		}
 		cs.P = p
 		if cs.Advertise {
@@ -573,6 +583,13 @@ func runDifferential(r reporter, idx int, tot *totals) {
 		if !cs.Advertise && cs.ReqPtr {
 			r.Class("pointer-request-on-cached-segment")
 		}
+		if !cs.Advertise && i < len(shm.Obs) && shm.Obs[i].ReqViaShm {
+			pol := map[string]string{"first-only": "once", "random": "some", "every": "every"}[h.Adv]
+			r.Class("advertise:" + pol + ":" + methodKind(cs.Method) + "-pointer-request")
+			if shm.Obs[i].InViaShm > 0 {
+				r.Class("advertise:" + pol + ":stream-pointer-input")
+			}
+		}
 	}
 	var shape []string
 	for _, cs := range h.Calls {
@@ -686,7 +703,7 @@ func main() {
 	if os.Getenv("VGI_RPC_SHM_MIN_BATCH_BYTES") != fmt.Sprint(threshold) {
 		r.Fatal("C36 needs VGI_RPC_SHM_MIN_BATCH_BYTES=%d (check.conf CHECK_ENV)", threshold)
 	}
-	r.SetRule("differential: history i = 3..8 calls (blob/void unary, three producers incl. top-level and nested dictionary outputs, exchange) with small/large params, results, inputs around the 256-byte shm threshold, scripted init errors / panics / mid-stream errors, early client stop; segment fit class i mod 3 (all/some/none), advertise policy (every/first-only/random), optional segment switch; run with and without the segment and compared call by call; slot table checked after every call. negative: scenario j mod 3 (pointer as unary request / stream request / exchange input on a never-advertised connection). distinct = distinct (fit, policy, per-call method+flags+failure+size class)")
+	r.SetRule("differential: history i = 3..8 calls (blob/void unary, three producers incl. top-level and nested dictionary outputs, exchange) with small/large params, results, inputs around the 256-byte shm threshold, scripted init errors / panics / mid-stream errors, early client stop; segment fit class i mod 3 (all/some/none), advertise policy per request (every request / first request of the connection only / random subset always including the first use; a later call on an advertise-once connection references the cached segment with a pointer init request and then sends pointer inputs), optional segment switch; run with and without the segment and compared call by call; slot table checked after every call. negative: scenario j mod 3 (pointer as unary request / stream request / exchange input on a never-advertised connection). distinct = distinct (fit, policy, per-call method+flags+failure+size class)")
 	r.Assume("the reference client is written from the protocol (request stream, then for stream methods one input stream sent in lockstep, EOS also after an error); pointer layouts as documented in shm.go")
 	r.Assume("client and server are joined by unbounded in-memory pipes (an OS pipe whose buffer never fills); a state with both sides blocked reading and both pipes empty is reported as a deadlock — no wall-clock is involved")
 	r.Assume("lockstep: the client touches its segment only while the server is blocked reading (all slot writes of a step happen before the step's bytes are sent)")
@@ -696,6 +713,8 @@ func main() {
 		"advertise:every", "advertise:first-only", "advertise:random", "segment-changed-mid-connection", "error-mid-stream",
 		"init-error-with-pointer-input", "pointer-request-on-cached-segment", "advertised-but-inline:none", "advertised-but-inline:some",
 		"unadvertised:unary-request", "unadvertised:stream-request", "unadvertised:exchange-input",
+		"advertise:once:unary-pointer-request", "advertise:once:producer-pointer-request", "advertise:once:exchange-pointer-request",
+		"advertise:once:stream-pointer-input", "advertise:some:stream-pointer-input", "advertise:some:exchange-pointer-request",
 		"threshold-0:via-shm:unary", "threshold-0:via-shm:producer", "threshold-0:via-shm:exchange",
 		"client-holds-pointers", "held-pointers-resolved-late")
 
